@@ -53,6 +53,7 @@ Shm *g_shm = nullptr;
 struct TCtx {
   bool started = false, finished = false, body_done = false;
   bool wantother = false;  // yielded inside a QUIESCE wait / long spin: let somebody else run if anybody can
+  bool inq = false;        // waiting in QUIESCE: counts as quiet for the others
   int spinrow = 0;         // spin hints in a row while nobody else ran (a spin loop that changes state never "blocks")
   int spin = 0;           // consecutive unchanged spin markers
   int ro_run = 0;         // consecutive read-only operations while nothing changed
@@ -310,6 +311,7 @@ bool OthersQuiet()
     TCtx &t = g_t[id];
     if (t.finished) continue;
     if (g_phase_of[id] > g_phase_of[me]) continue;
+    if (t.started && t.inq) continue;
     if (!(t.started && t.blocked && t.blocked_gw == g_gw)) return false;
   }
   return true;
@@ -321,10 +323,12 @@ void WaitOthersQuiet()
   int me = tl_self;
   if (me <= 0) return;
   int rounds = 0;
+  g_t[me].inq = true;
   while (!OthersQuiet() && rounds++ < 60) {  // (a waiter whose loop keeps changing state never counts as blocked: go on after a while)
     g_t[me].wantother = true;
     YieldToController(me);
   }
+  g_t[me].inq = false;
 }
 
 void BlockUntil(const std::function<bool()> &pred)
